@@ -78,6 +78,12 @@ namespace smt
 
     SMT_EXPORT bool equates(const lin &l0, const lin &l1) const noexcept;
 
+    /**
+     * Returns, for every assertion whose controlling variable is not yet assigned, the literal stating what the current
+     * values make of it (asserting such a literal leaves the current values feasible).
+     */
+    SMT_EXPORT std::vector<lit> get_unassigned_assertions() const noexcept;
+
     SMT_EXPORT bool set_lb(const var &x_i, const inf_rational &val, const lit &p) noexcept { return assert_lower(x_i, val, p); }
     SMT_EXPORT bool set_ub(const var &x_i, const inf_rational &val, const lit &p) noexcept { return assert_upper(x_i, val, p); }
     SMT_EXPORT bool set(const var &x_i, const inf_rational &val, const lit &p) noexcept { return set_lb(x_i, val, p) && set_ub(x_i, val, p); }
